@@ -142,17 +142,12 @@ pub mod net {
         /// Forget everything (leaks on purpose: cheap for a model checker and
         /// irrelevant natively).
         pub fn reset(&mut self) {
-            let mut i = 0;
-            while i < MAX_EVENTS {
-                core::mem::forget(self.script[i].take());
-                i += 1;
+            // overwrite without dropping (no loops: cheap for a model checker)
+            unsafe {
+                core::ptr::write(&mut self.script, [NO_EVENT; MAX_EVENTS]);
+                core::ptr::write(&mut self.sends, [NO_SEND; MAX_SENDS]);
             }
-            let mut i = 0;
-            while i < MAX_SENDS {
-                core::mem::forget(self.sends[i].take());
-                self.send_fault[i] = false;
-                i += 1;
-            }
+            self.send_fault = [false; MAX_SENDS];
             self.next_event = 0;
             self.eof_after_script = false;
             self.n_sends = 0;
